@@ -110,6 +110,17 @@ struct PoolExec {
 
   // model of Malloc; returns whether a new chunk is needed
   bool need_chunk(MPool& mp, size_t asz) { return mp.chunks[0].size + asz > mp.chunks[0].cap; }
+  // The statement does not forbid trying again after the base allocator refused a chunk. If a block comes back although the
+  // injected failure fired, the chunk it lies in is taken from the ledger of base allocations (capacity = what was really
+  // obtained minus the header) and every other clause - inside that chunk, disjoint, Size/Capacity - is judged as usual.
+  size_t retried_chunk_cap(char* p, size_t n) {
+    std::vector<simmem::Block> live; simmem::live_blocks(simmem::SIMBASE, live);
+    const simmem::Block* best = nullptr;
+    for (auto& b : live) if (p >= b.ptr + kHdr && p + al8(n) <= b.ptr + b.size && (!best || b.id > best->id)) best = &b;
+    if (!best) violate("overlap", site("outside_chunk"), "after a refused chunk allocation a block was returned that lies in no chunk obtained from the base allocator");
+    probe("allocation_succeeded_after_refused_chunk(retry)");
+    return best->size - kHdr;
+  }
 
   char* do_malloc(int a, size_t n, bool inject_fail, bool& failed) {
     MPool& mp = pools[(size_t)ma[a].pool];
@@ -127,9 +138,8 @@ struct PoolExec {
     if (n == 0) { if (p) violate("model", site("zero"), "zero-size request returned a non-null block"); return nullptr; }
     if (fired) {
       probe("chunk_alloc_fail_fired");
-      if (p) violate("contract", site("nomem"), "chunk allocation failed but Malloc returned a block");
-      failed = true;
-      return nullptr;
+      if (!p) { failed = true; return nullptr; }
+      newcap = retried_chunk_cap(p, n);
     }
     if (!p) violate("model", site("null"), "Malloc returned null without an allocation failure");
     if (needc) { mp.chunks.insert(mp.chunks.begin(), MChunk{newcap, 0}); probe("new_chunk"); }
@@ -236,8 +246,8 @@ struct PoolExec {
       if (n == 0) { if (p) violate("model", site("zero"), "Realloc to size zero returned a non-null block"); ob = "r0"; check_counters(a); return true; }
       if (fired) {
         probe("chunk_alloc_fail_fired");
-        if (p) violate("contract", site("nomem"), "chunk allocation failed but Realloc returned a block");
-        ob = "rF"; check_counters(a); verify_contents(); return true;
+        if (!p) { ob = "rF"; check_counters(a); verify_contents(); return true; }
+        newcap = retried_chunk_cap(p, n);
       }
       if (!p) violate("model", site("null"), "Realloc returned null without an allocation failure");
       size_t keepn = old.n < n ? old.n : n, bad;
